@@ -10,7 +10,7 @@ REPLAY_CRATE = os.path.join(VERIF, 'replay')
 _built = {}
 
 # which replay-crate family can search a concrete counterexample for a property
-FAMILY = {'C05': 'io', 'C06': 'io', 'C07': 'io', 'C19': 'io', 'C02': 'conv', 'C01': 'fmt', 'C04': 'fmt', 'C03': 'client', 'C08': 'queue', 'C09': 'queue', 'C10': 'queue', 'C11': 'queue', 'C15': 'queue', 'C16': 'queue'}
+FAMILY = {'C05': 'io', 'C06': 'io', 'C07': 'io', 'C19': 'io', 'C02': 'conv', 'C01': 'fmt', 'C04': 'fmt', 'C03': 'client', 'C08': 'queue', 'C09': 'queue', 'C10': 'queue', 'C11': 'queue', 'C15': 'queue', 'C16': 'queue', 'C13': 'sink', 'C14': 'sink'}
 
 
 def slug(name):
@@ -112,7 +112,7 @@ def make_replay(prop, n, v, seed, tier):
     if not found:
         fam = v.get('family') or FAMILY.get(prop)
         if fam:
-            hit, why = search(prop, fam, seed, (200000 if tier == 'thorough' else 40000) if fam != 'queue' else (1500 if tier == 'thorough' else 300))
+            hit, why = search(prop, fam, seed, (200000 if tier == 'thorough' else 40000) if fam not in ('queue', 'sink') else (1500 if tier == 'thorough' else 300))
             if hit:
                 doc.update(family=fam, case=hit['case'], oracle_failures=hit['failures'],
                            source='seeded concrete search of the real code with the property oracle (replay crate)')
